@@ -202,6 +202,7 @@ func (s *server) Unary(ctx context.Context, req *tp.UnaryRequest) (*tp.UnaryResp
 
 func (s *server) ServerStream(req *tp.ServerStreamRequest, stream grpc.ServerStreamingServer[tp.ServerStreamResponse]) error {
 	sc := s.script()
+	s.saw("request " + req.SimulateError)
 	s.meta(stream.Context(), sc, stream)
 	for i := 0; i < sc.N; i++ {
 		if sc.ErrAfter >= 0 && i == sc.ErrAfter {
@@ -373,7 +374,9 @@ func runClient(c tp.TestApiClient, sc script, mkCtx func(deadline bool) (context
 			tr = append(tr, "header="+userMD(h), "trailer="+userMD(t))
 		}
 	case "sstream":
-		stream, err := c.ServerStream(ctx, &tp.ServerStreamRequest{NumRes: int32(sc.N)})
+		sreq := &tp.ServerStreamRequest{NumRes: int32(sc.N), SimulateError: "as sent"}
+		stream, err := c.ServerStream(ctx, sreq)
+		sreq.SimulateError = "scribbled" // the request is the caller's again once the call is open: the server has its copy
 		if err != nil {
 			return append(tr, "open-err="+outcome(err))
 		}
